@@ -86,7 +86,9 @@ def seg_events(lay):
     return [dict(op='seg', **s) for s in lay]
 
 
-IDENTS = {'blank': b'', 'printable': b'Default Storage Set ~!@#', 'nonascii': b'Caf\xe9 \xff\x00\x80 set'}
+IDENTS = {'blank': b'', 'printable': b'Default Storage Set ~!@#', 'nonascii': b'Caf\xe9 \xff\x00\x80 set',
+          # any identifier text: digits first (a date, a job number), all digits, sixty characters
+          'digits': b'2021-03 WELL 9 5/8in', 'alldigits': b'00042', 'full': b'0123456789' * 6}
 
 
 def run(ctx, which):
